@@ -115,8 +115,17 @@ def time_limit(seconds):
 def _rt_records(t):
     """records of a run-time task; an exception that escapes from REPOSITORY code (innermost frame under /repo) on a well-formed input is a failed
     obligation, not a checker error -- exceptions raised by the checker's own code stay engine errors"""
+    from . import frame as _frame
+    mods = lambda: [m for n, m in list(sys.modules.items()) if (n == 'msdm' or n.startswith('msdm.')) and m is not None and not n.startswith('msdm.tests')]
+    before = _frame.snapshot(mods())
     try:
         yield from t.harness(*t.args)
+        # frame condition over state that outlives every call: the whole run-time harness (many calls, many models) must leave no module-level or
+        # class-level container of the library changed (modules imported during the run are compared from their import state: new non-empty containers count)
+        ch = [c for c in _frame.changes(before, _frame.snapshot(mods())) if ' appeared ' not in c or c.split('.')[0] in {k[0].split('.')[0] for k in before}]
+        known_at_import = _frame.snapshot(mods())
+        yield dict(name='rt:frame:no-module-level-or-class-level-state-of-the-library-is-left-behind', ok=not [c for c in ch if ' changed: ' in c], witness=dict(task=t.name),
+                   detail='; '.join(ch)[:800])
     except (S.Unsupported, _TaskTimeout, KeyboardInterrupt, MemoryError):
         raise
     except Exception as e:
@@ -175,11 +184,67 @@ def run_tasks(tasks, procs=None):
         for i in range(len(tasks)):
             results[i] = _run_task(i)[1]
         return results
+    # one forked process per task, at most `procs` at a time.  A worker that dies (killed by the kernel for memory, a crash in native code) or overruns
+    # its hard limit costs ITS task only ("undecided"); a Pool would wait for the lost result forever.
     ctx = multiprocessing.get_context('fork')
-    with ctx.Pool(procs, maxtasksperchild=1) as pool:
-        for i, out in pool.imap_unordered(_run_task, range(len(tasks)), chunksize=1):
-            results[i] = out
+    pending = list(range(len(tasks)))
+    active = {}                      # i -> (process, parent_conn, t_start)
+
+    def child(i, conn):
+        try:
+            import resource
+            lim = int(os.environ.get('SYMRUN_MEM_GB', '8')) << 30
+            resource.setrlimit(resource.RLIMIT_AS, (lim, lim))      # a run-away allocation raises MemoryError in the worker instead of waking the OOM killer
+        except Exception:
+            pass
+        try:
+            out = _run_task(i)[1]
+        except BaseException as e:
+            out = _lost(tasks[i], 'worker failed: %s: %s' % (type(e).__name__, str(e)[:300]))
+        try:
+            conn.send(out)
+        except Exception as e:
+            try:
+                conn.send(_lost(tasks[i], 'result could not be sent: %s' % type(e).__name__))
+            except Exception:
+                pass
+        finally:
+            conn.close()
+            os._exit(0)
+    while pending or active:
+        while pending and len(active) < procs:
+            i = pending.pop(0)
+            pc, cc = ctx.Pipe(duplex=False)
+            pr = ctx.Process(target=child, args=(i, cc), daemon=True)
+            pr.start()
+            cc.close()
+            active[i] = (pr, pc, time.time())
+        done = []
+        for i, (pr, pc, t0) in active.items():
+            if pc.poll(0):
+                try:
+                    results[i] = pc.recv()
+                except (EOFError, OSError):
+                    results[i] = _lost(tasks[i], 'worker died without a result (exit code %s); undecided' % pr.exitcode)
+                done.append(i)
+            elif not pr.is_alive():
+                results[i] = _lost(tasks[i], 'worker died without a result (exit code %s: killed or crashed in native code); undecided' % pr.exitcode)
+                done.append(i)
+            elif time.time() - t0 > tasks[i].deadline_s + 300:
+                pr.kill()
+                results[i] = _lost(tasks[i], 'task timed out after %ds (hard limit); undecided' % (int(tasks[i].deadline_s) + 300))
+                done.append(i)
+        for i in done:
+            pr, pc, _ = active.pop(i)
+            pc.close()
+            pr.join(timeout=5)
+        if not done:
+            time.sleep(0.02)
     return results
+
+
+def _lost(t, msg):
+    return dict(paths=0, infeasible=0, checks={}, errors=[msg], solver_s=0, queries=0, truncated=True, backends={}, external={}, wall_s=0.0)
 
 
 # ---------------------------------------------------------------------------------------------------
